@@ -377,6 +377,45 @@ impl<B: RealBook> Shadow<B> {
     }
 }
 
+/// Reference-engine twin of the shadow: cheap to clone, used only by the fallback schedule search.
+#[derive(Clone)]
+pub struct RefShadow {
+    pub books: Vec<RefBook>,
+}
+
+impl RefShadow {
+    pub fn new(t0: u64, ticks: &[u32], trading: bool) -> Self {
+        RefShadow { books: ticks.iter().map(|t| RefBook::new(t0, *t, trading)).collect() }
+    }
+    pub fn set_time(&mut self, t: u64) {
+        for b in self.books.iter_mut() {
+            b.set_time(t);
+        }
+    }
+    pub fn set_trading(&mut self, on: bool) {
+        for b in self.books.iter_mut() {
+            b.set_trading(on);
+        }
+    }
+    pub fn apply(&mut self, ins: &Ins, new_id: Option<usize>) {
+        match ins {
+            Ins::New { asset, .. } => self.books[*asset].place(new_id.unwrap()),
+            Ins::Cancel { asset, id } => self.books[*asset].cancel(*id),
+            Ins::Modify { asset, id, price, vol } => self.books[*asset].modify(*id, *price, *vol),
+        }
+    }
+    pub fn replay(&mut self, batch: &[Ins], new_ids: &[Option<usize>], order: &[usize], start: u64, step_size: u64) {
+        for b in self.books.iter_mut() {
+            b.reset_traded();
+        }
+        for (i, k) in order.iter().enumerate() {
+            self.set_time(start + i as u64);
+            self.apply(&batch[*k], new_ids[*k]);
+        }
+        self.set_time(start + step_size);
+    }
+}
+
 /// The permutation rand's `SliceRandom::shuffle` produces for a slice of length n from this
 /// generator state (the shuffle is content-independent) — used only as a *hint*.
 pub fn rand_shuffle_perm<R: RngCore + Clone>(rng: &R, n: usize) -> Vec<usize> {
@@ -413,6 +452,7 @@ fn shadow_matches<E: SimEnv>(env: &E, sh: &Shadow<E::Book>) -> Result<(), String
 pub fn infer_and_advance<E: SimEnv>(
     env: &E,
     shadow: &mut Shadow<E::Book>,
+    rshadow: &mut RefShadow,
     batch: &[Ins],
     new_ids: &[Option<usize>],
     start: u64,
@@ -438,6 +478,7 @@ pub fn infer_and_advance<E: SimEnv>(
             shadow_matches(env, shadow)
         });
         if let Ok(Ok(())) = ok {
+            rshadow.replay(batch, new_ids, hint, start, step_size);
             return Infer::Consistent { order: hint.to_vec(), by_hint: true, candidates_tried: 1 };
         }
         match restore(&pre_json) {
@@ -467,70 +508,172 @@ pub fn infer_and_advance<E: SimEnv>(
         }
     }
     let unknown: Vec<usize> = (0..n).filter(|k| slot_of[*k].is_none()).collect();
-    let free: Vec<usize> = (0..n).filter(|s| !used[*s]).collect();
-    if unknown.len() > 9 {
-        return Infer::Inconclusive(format!("{} instructions without a visible time-stamp: search space too large", unknown.len()));
-    }
-    // permutations of `unknown` over `free`, skipping permutations that only swap identical instructions
-    let mut tried = 0u64;
-    let mut perm: Vec<usize> = (0..unknown.len()).collect();
-    let mut found: Option<Vec<usize>> = None;
-    let mut seen_assign: std::collections::HashSet<Vec<usize>> = std::collections::HashSet::new();
-    loop {
-        // canonical form: for identical instructions, slots must be increasing
-        let mut canonical = true;
-        'c: for i in 0..unknown.len() {
-            for j in (i + 1)..unknown.len() {
-                if batch[unknown[i]] == batch[unknown[j]] && perm[i] > perm[j] {
-                    canonical = false;
-                    break 'c;
-                }
-            }
+    // what the environment shows after the step (targets of the search)
+    let assets = E::ASSETS;
+    let env_orders: Vec<Vec<ROrder>> = (0..assets).map(|a| env.book(a).orders()).collect();
+    let env_trades: Vec<Vec<RTrade>> = (0..assets).map(|a| env.book(a).trades()).collect();
+    let pre_trades: Vec<usize> = rshadow.books.iter().map(|b| b.trades.len()).collect();
+    let mut forced: Vec<Option<usize>> = vec![None; n];
+    for k in 0..n {
+        if let Some(sl) = slot_of[k] {
+            forced[sl] = Some(k);
         }
-        if canonical {
-            let mut order = vec![usize::MAX; n];
-            for k in 0..n {
-                if let Some(s) = slot_of[k] {
-                    order[s] = k;
-                }
-            }
-            for (i, k) in unknown.iter().enumerate() {
-                order[free[perm[i]]] = *k;
-            }
-            if seen_assign.insert(order.clone()) {
-                tried += 1;
-                if tried > node_budget {
-                    return Infer::Inconclusive(format!("schedule search budget exhausted after {} candidates", tried));
-                }
-                match restore(&pre_json) {
-                    Ok(mut f) => {
-                        let ok = catch(|| {
-                            f.replay(batch, new_ids, &order, start, step_size);
-                            shadow_matches(env, &f)
-                        });
-                        if let Ok(Ok(())) = ok {
-                            found = Some(order);
-                            break;
+    }
+    struct Dfs<'a> {
+        batch: &'a [Ins],
+        new_ids: &'a [Option<usize>],
+        forced: &'a [Option<usize>],
+        env_orders: &'a [Vec<ROrder>],
+        env_trades: &'a [Vec<RTrade>],
+        env_queues: &'a [Option<(Vec<usize>, Vec<usize>)>],
+        pre_trades: &'a [usize],
+        /// real-book verification of a complete candidate order (fork of the shadow + replay + compare)
+        verify: &'a mut dyn FnMut(&[usize]) -> bool,
+        start: u64,
+        step_size: u64,
+        nodes: u64,
+        budget: u64,
+    }
+    impl<'a> Dfs<'a> {
+        /// Some(order) on success, None if this subtree is exhausted; Err(()) when the budget ran out
+        fn go(&mut self, rs: &RefShadow, slot: usize, remaining: &mut Vec<usize>, order: &mut Vec<usize>) -> Result<bool, ()> {
+            let n = self.batch.len();
+            if slot == n {
+                let mut fin = rs.clone();
+                fin.set_time(self.start + self.step_size);
+                for a in 0..fin.books.len() {
+                    let rb = &fin.books[a];
+                    if rb.trades != self.env_trades[a] || rb.orders.len() != self.env_orders[a].len() {
+                        return Ok(false);
+                    }
+                    for (e, o) in rb.orders.iter().zip(self.env_orders[a].iter()) {
+                        let mut e2 = *e;
+                        if e.status == NEW {
+                            e2.arr = o.arr;
+                        }
+                        if e2 != *o {
+                            return Ok(false);
                         }
                     }
-                    Err(e) => return Infer::Inconclusive(format!("cannot fork shadow: {}", e)),
+                    // the queue order (hook H2) distinguishes schedules that differ only in the order
+                    // of re-queuing modifications
+                    if let Some((qb, qa)) = &self.env_queues[a] {
+                        if *qb != rb.queue(true) || *qa != rb.queue(false) {
+                            return Ok(false);
+                        }
+                    }
+                }
+                // the verdict is taken on the real plain order book
+                return Ok((self.verify)(order));
+            }
+            let cands: Vec<usize> = match self.forced[slot] {
+                Some(k) => vec![k],
+                None => {
+                    // identical instructions are interchangeable: try each distinct one once
+                    let mut c: Vec<usize> = Vec::new();
+                    for k in remaining.iter() {
+                        if !c.iter().any(|j| self.batch[*j] == self.batch[*k]) {
+                            c.push(*k);
+                        }
+                    }
+                    c
+                }
+            };
+            for k in cands {
+                self.nodes += 1;
+                if self.nodes > self.budget {
+                    return Err(());
+                }
+                let mut next = rs.clone();
+                next.set_time(self.start + slot as u64);
+                next.apply(&self.batch[k], self.new_ids[k]);
+                // prune: the trade log is append-only, so what has been produced so far must be a
+                // prefix of what the environment shows; an order that became terminal now must show
+                // exactly this end time in the environment
+                let a = self.batch[k].asset();
+                let rb = &next.books[a];
+                let produced = &rb.trades[self.pre_trades[a]..];
+                let seen = &self.env_trades[a][self.pre_trades[a].min(self.env_trades[a].len())..];
+                if produced.len() > seen.len() || produced != &seen[..produced.len()] {
+                    continue;
+                }
+                let subject = match &self.batch[k] {
+                    Ins::New { .. } => self.new_ids[k].unwrap(),
+                    Ins::Cancel { id, .. } | Ins::Modify { id, .. } => *id,
+                };
+                if subject < rb.orders.len() && subject < self.env_orders[a].len() {
+                    let (r, e) = (&rb.orders[subject], &self.env_orders[a][subject]);
+                    if r.status >= FILLED && (e.status != r.status || e.end != r.end) {
+                        continue;
+                    }
+                }
+                let was_forced = self.forced[slot].is_some();
+                let pos = if was_forced { None } else { remaining.iter().position(|x| *x == k) };
+                if let Some(p) = pos {
+                    remaining.remove(p);
+                }
+                order.push(k);
+                let r = self.go(&next, slot + 1, remaining, order)?;
+                if r {
+                    return Ok(true);
+                }
+                order.pop();
+                if let Some(p) = pos {
+                    remaining.insert(p, k);
                 }
             }
-        }
-        if !next_permutation(&mut perm) {
-            break;
+            Ok(false)
         }
     }
+    let mut base = rshadow.clone();
+    for b in base.books.iter_mut() {
+        b.reset_traded();
+    }
+    let env_queues: Vec<Option<(Vec<usize>, Vec<usize>)>> = (0..assets).map(|a| env.book(a).queue()).collect();
+    let mut ref_only_matches = 0u64;
+    let mut verify = |order: &[usize]| -> bool {
+        match restore(&pre_json) {
+            Ok(mut f) => {
+                let ok = catch(|| {
+                    f.replay(batch, new_ids, order, start, step_size);
+                    shadow_matches(env, &f)
+                });
+                if let Ok(Ok(())) = ok {
+                    true
+                } else {
+                    ref_only_matches += 1;
+                    false
+                }
+            }
+            Err(_) => false,
+        }
+    };
+    let mut dfs = Dfs { batch, new_ids, forced: &forced, env_orders: &env_orders, env_trades: &env_trades, env_queues: &env_queues, pre_trades: &pre_trades, verify: &mut verify, start, step_size, nodes: 0, budget: node_budget };
+    let mut remaining = unknown.clone();
+    let mut order: Vec<usize> = Vec::with_capacity(n);
+    let found = match dfs.go(&base, 0, &mut remaining, &mut order) {
+        Ok(true) => Some(order),
+        Ok(false) => None,
+        Err(()) => return Infer::Inconclusive(format!("schedule search budget exhausted after {} nodes ({} instructions without a visible time-stamp)", dfs.nodes, unknown.len())),
+    };
+    let tried = dfs.nodes;
     match found {
         Some(order) => {
-            shadow.replay(batch, new_ids, &order, start, step_size);
-            match shadow_matches(env, shadow) {
-                Ok(()) => Infer::Consistent { order, by_hint: false, candidates_tried: tried },
-                Err(e) => Infer::Inconclusive(format!("shadow disagrees with its own JSON fork: {}", e)),
+            // the verdict is taken on the real plain order book
+            let ok = catch(|| {
+                shadow.replay(batch, new_ids, &order, start, step_size);
+                shadow_matches(env, shadow)
+            });
+            match ok {
+                Ok(Ok(())) => {
+                    rshadow.replay(batch, new_ids, &order, start, step_size);
+                    Infer::Consistent { order, by_hint: false, candidates_tried: tried }
+                }
+                Ok(Err(e)) => Infer::Inconclusive(format!("a schedule reproduces the environment on the reference engine but not on the real plain book (matching semantics are C01's business): {}", e)),
+                Err(p) => Infer::Inconclusive(format!("replay of the found schedule panicked: {}", p)),
             }
         }
         None => {
-            // describe the difference for the hinted order (most informative)
             let detail = if hint.len() == n {
                 match restore(&pre_json) {
                     Ok(mut f) => match catch(|| {
@@ -546,7 +689,7 @@ pub fn infer_and_advance<E: SimEnv>(
             } else {
                 String::new()
             };
-            Infer::Violation(format!("no processing order of the {} submitted instructions reproduces the environment's book ({} candidate schedules tried); difference for the expected order: {}", n, tried, detail))
+            Infer::Violation(format!("no processing order of the {} submitted instructions reproduces the environment's book ({} search nodes); difference for the order rand's shuffle would give: {}", n, tried, detail))
         }
     }
 }
